@@ -99,7 +99,7 @@ impl Property for C11 {
     }
     fn rule(&self, tier: Tier) -> String {
         format!(
-            "Strides of M1/M3/M4 x solve kind {{satisfy, complete iteration, optimise with LinearSatUnsat / LinearUnsatSat x minimise / maximise x objective x0 / the view -x0+1}} x 2 branchers; a counting TerminationCondition first counts the polls N of the uninterrupted run (runs with N > {} are skipped and counted), then for EVERY k in 0..=N the run is repeated with should_stop() returning true from poll k on, and once more returning true only at poll k; a case = (model, kind, brancher) and each case performs 2(N+1) interrupted executions (counter interrupted_runs). Oracle: the result is Unknown, or (optimise) Satisfiable(best) with best a solution, or the CORRECT definitive answer; afterwards the same solver is asked the same question with a condition that never fires and must give the correct answer. Exhaustive over k.",
+            "Strides of M1/M3/M4 x solve kind {{satisfy, complete iteration, optimise with LinearSatUnsat / LinearUnsatSat x minimise / maximise x objective x0 / the view -x0+1}} x 2 branchers; a counting TerminationCondition first counts the polls N of the uninterrupted run (runs with N > {} are skipped and counted), then for EVERY k in 0..=N the run is repeated with should_stop() returning true from poll k on, and once more returning true only at poll k; a case = (model, kind, brancher) and each case performs 2(N+1) interrupted executions (counter interrupted_runs). Oracle: the result is Unknown, or (optimise) Satisfiable(best) with best a solution, or the CORRECT definitive answer; afterwards the same solver is asked the same question with a condition that never fires and must give the correct answer; for iterations interrupted by a condition that fires once, the same iterator is also asked to continue after the Unknown and must still yield every solution exactly once. Exhaustive over k.",
             max_polls(tier)
         )
     }
@@ -322,6 +322,43 @@ fn run_case(model: &Model, sols: &[Vec<i32>], kind: Kind, br: &BrancherSpec, max
             }
             if matches!(out, Outcome::Panic(_)) {
                 continue;
+            }
+            // an interrupt that fires once: keep asking the SAME iterator for the next solution
+            // after the Unknown; the iteration must still yield every solution exactly once
+            if kind == Kind::Iterate && once {
+                if let Ok(mut b2) = guard(|| build(model, &cfg)) {
+                    let ids = b2.ids.clone();
+                    let mut t2 = CountingTermination::from(k, true);
+                    let (got, end, unknowns) = with_brancher(
+                        br,
+                        &mut b2.solver,
+                        &ids,
+                        42,
+                        IterateResuming {
+                            ids: &ids,
+                            term: &mut t2,
+                            cap: sols.len() + 2,
+                            max_unknowns: 4,
+                        },
+                    );
+                    cx.acc.count("resumed_iterations", 1);
+                    if unknowns > 0 {
+                        cx.acc.count("resumed_iterations_that_were_interrupted", 1);
+                    }
+                    let mut sorted = got.clone();
+                    sorted.sort();
+                    let dup = sorted.windows(2).any(|w| w[0] == w[1]);
+                    sorted.dedup();
+                    let mut reference = sols.to_vec();
+                    reference.sort();
+                    if !matches!(end, IterEnd::Finished | IterEnd::Unsat) {
+                        cx.violation("resumed-iteration-does-not-finish", format!("{what}: resumed iteration ended with {end:?} after {} solutions", got.len()));
+                    } else if dup {
+                        cx.violation("resumed-iteration-repeats-a-solution", format!("{what}: the resumed iteration produced {got:?}"));
+                    } else if sorted != reference {
+                        cx.violation("resumed-iteration-set-differs", format!("{what}: the resumed iteration produced {} of {} solutions", sorted.len(), reference.len()));
+                    }
+                }
             }
             // ask again, never interrupted
             let blocked: Vec<Vec<i32>> = match &out {
